@@ -11,6 +11,8 @@ def _class(r):
         return "?"
     if r["k"] == "boot":
         return "boot"
+    if r.get("hung"):
+        return "hung-round"
     if not (r["exact"] and r["haslog"]):
         return "opaque"
     c = r["cfg"]
@@ -113,8 +115,17 @@ def run(ctx):
     cp = ctx.path("cases.ndjson")
     vlib.write_ndjson(cp, cases)
     # 3. the real sync.Run under value embeddings
-    trace, out = ctx.godriver("c01", "TestC01", cases=cp, timeout=900)
-    recs = vlib.read_ndjson(trace)
+    trace = ctx.path("trace.ndjson")
+    rc, out = ctx.gotest("c01", "TestC01", env=dict(VERIF_IN=cp, VERIF_OUT=trace), timeout=900)
+    recs = vlib.read_ndjson(trace) if os.path.exists(trace) else []
+    hung = rc != 0 and "exit status 3" in out and recs and recs[-1].get("hung")
+    if hung:
+        # the driver's real-time watchdog gave up on a behaviour whose round never
+        # reached clk.Sleep; what was recorded up to there is the observation
+        ctx.log("driver stopped at a round that did not complete: case %d round %d"
+                % (recs[-1]["case"], recs[-1]["rnd"]))
+    elif rc != 0 or not recs:
+        raise vlib.Inconclusive("go driver c01/TestC01 failed (rc=%d):\n%s" % (rc, "\n".join(out.splitlines()[-60:])))
     ctx.log("driver: %d records from %d cases" % (len(recs), len(cases)))
     _corrupt(ctx, recs)
     # 4. code -> spec: monitor decides, strict reports drift
@@ -136,6 +147,8 @@ def run(ctx):
         ok, l, inv, tout = ctx.validate("SyncRoundTrace", STRICT, pp)
         if not ok:
             ctx.drift.append("record %s differs from SyncRound.tla (%s)" % (part[l - 1] if l else "?", inv))
+    if hung and not ctx.violations:
+        raise vlib.Inconclusive("driver gave up on a hung behaviour but the monitor accepts the recorded trace: %s" % recs[-1])
     st = _stats(cases, recs)
     ctx.log("coverage: %s" % st)
     for k in ("both_contribute", "ref_only", "peer_only", "peer_within_cutoff", "ref_clamped", "peer_clamped",
